@@ -1407,6 +1407,35 @@ impl SideMetadataSpec {
     }
 }
 
+/// Verification hooks: the private fast / naive variants of the search and scan functions.
+#[cfg(feature = "mmtk_verif")]
+impl SideMetadataSpec {
+    /// `find_prev_non_zero_value_fast`
+    pub fn verif_find_prev_fast<T: MetadataValue>(&self, data_addr: Address, limit: usize) -> Option<Address> {
+        self.find_prev_non_zero_value_fast::<T>(data_addr, limit)
+    }
+    /// `find_prev_non_zero_value_simple`
+    pub fn verif_find_prev_simple<T: MetadataValue>(&self, data_addr: Address, limit: usize) -> Option<Address> {
+        self.find_prev_non_zero_value_simple::<T>(data_addr, limit)
+    }
+    /// `find_next_non_zero_value_fast`
+    pub fn verif_find_next_fast<T: MetadataValue>(&self, data_addr: Address, limit: usize) -> Option<Address> {
+        self.find_next_non_zero_value_fast::<T>(data_addr, limit)
+    }
+    /// `find_next_non_zero_value_simple`
+    pub fn verif_find_next_simple<T: MetadataValue>(&self, data_addr: Address, limit: usize) -> Option<Address> {
+        self.find_next_non_zero_value_simple::<T>(data_addr, limit)
+    }
+    /// `scan_non_zero_values_fast`
+    pub fn verif_scan_fast(&self, start: Address, end: Address, visit_data: &mut impl FnMut(Address)) {
+        self.scan_non_zero_values_fast(start, end, visit_data)
+    }
+    /// `scan_non_zero_values_simple`
+    pub fn verif_scan_simple<T: MetadataValue>(&self, start: Address, end: Address, visit_data: &mut impl FnMut(Address)) {
+        self.scan_non_zero_values_simple::<T>(start, end, visit_data)
+    }
+}
+
 impl fmt::Debug for SideMetadataSpec {
     fn fmt(&self, f: &mut fmt::Formatter<'_>) -> fmt::Result {
         f.write_fmt(format_args!(
